@@ -41,14 +41,9 @@ func c18ConsumerProperty(t *rapid.T) {
 		set[config.TimeZone] = cfg.loc.String()
 	}
 	if cfg.weekly {
-		set[config.StartDay] = cfg.startDay.String()
-		set[config.EndDay] = cfg.endDay.String()
+		set[config.StartDay], set[config.EndDay] = cfg.dayNames()
 	} else if len(cfg.days) > 0 {
-		var l []string
-		for _, d := range cfg.days {
-			l = append(l, d.String())
-		}
-		set[config.Weekdays] = strings.Join(l, ",")
+		set[config.Weekdays] = cfg.weekdaysText()
 	}
 	// the schedule's consequences do not depend on the other reset options
 	for _, k := range []string{config.ResetOnDisconnect, config.ResetOnLogout, config.ResetOnLogon} {
